@@ -282,3 +282,24 @@ func try(f func() string) (out string) {
 	}()
 	return f()
 }
+
+// CheckModel compares the implementation with the executable model only.
+func (c *Ctx) CheckModel(stream, class, req, impl string) bool {
+	model := c.drv.Ask(req)
+	if model != impl {
+		c.Disagree(Disagreement{Kind: "impl!=model", Class: class, Request: req, Impl: impl, Model: model, Stream: stream})
+		return false
+	}
+	return true
+}
+
+// CheckSpec compares a (possibly differently formatted) view of the implementation's answer with the
+// executable specification.
+func (c *Ctx) CheckSpec(stream, class, req, specReq, implView string) bool {
+	spec := c.drv.Ask(specReq)
+	if spec != implView {
+		c.Disagree(Disagreement{Kind: "impl!=spec", Class: class, Request: req, SpecReq: specReq, Impl: implView, Spec: spec, Stream: stream})
+		return false
+	}
+	return true
+}
